@@ -34,7 +34,14 @@ ASSUMPTIONS = [
 
 FORMS = ["gopher", "gophers", "gplus", "gpluss", "gdollar", "gbang", "http", "https", "head", "wap", "waphdr",
          "gemini", "spartan"]
-SEG_INJ = ["..", "../..", "../../..", ".", "", "...", "..;", "%2e%2e", "..%2f..", "\\..\\..", ".\\..", "\\\\x",
+def _u8(x):
+    return x.encode("utf-8").decode("latin-1")
+
+
+# characters that Unicode compatibility normalisation folds to '.', '..', '/' and '\\'
+UDOTS = [_u8("\u2025"), _u8("\uff0e\uff0e"), _u8("\u2024\u2024"), _u8("\ufe52\ufe52"), _u8("\uff0e.")]
+USLASH = [_u8("\uff0f"), _u8("\uff3c")]
+SEG_INJ = UDOTS + [UDOTS[0] + USLASH[0] + UDOTS[0]] + ["..", "../..", "../../..", ".", "", "...", "..;", "%2e%2e", "..%2f..", "\\..\\..", ".\\..", "\\\\x",
            "..\\", "a..b", "x.", "~", "..\x00", "\x00"]
 CHR_INJ = ["../", "/..", "./", "//", "\\..\\", ".\\", "\\\\", "\x00", "..", "/../", "/./", "\\", "%00", "%2e%2e%2f",
            "%5c%5c", "/%2e%2e/", "/..|", "/..?", "..|/MAILDIR-MESSAGE/1", "/../rootx|/MAILDIR-MESSAGE/1"]
@@ -175,7 +182,9 @@ def _case(draw):
         depth = 0 if base == "/" else base.count("/")
         target = draw(st.sampled_from(["secret.txt", "secret", "secret/inner.txt", "rootx", "rootx/file.txt", "box.mbox",
                                        "cwd", "cwd/a.txt", "md", "root", "root/readme.txt", "", "new/1.msg"]))
-        sel = base.rstrip("/") + "/" + "../" * (depth + 1) + target
+        dots = draw(st.sampled_from(["..", "..", ".."] + UDOTS))
+        slash = draw(st.sampled_from(["/", "/", "/", USLASH[0]])) if dots != ".." else "/"
+        sel = base.rstrip("/") + "/" + (dots + slash) * (depth + 1) + target
         fam = clients.FORMS[c["form"]][1]
         c.update(noslash=False, sel=sel.rstrip("/") or "/..", inj="../" * (depth + 1) + target, style="probe",
                  layers=0 if fam in ("gopher", "gplus", "gdollar", "gbang") else draw(st.sampled_from([0, 1])),
